@@ -11,6 +11,35 @@ from vt import gen
 PROPERTY = "C16"
 TITLE = "Ice models self-consistent"
 TECHNIQUE = ('runtime monitoring: index / depth_with_index / gradient / attenuation_length executions on generated, re-parameterised and layered ice models decided by closed forms, scalar-vs-array agreement and round trips')
+NEEDS_ICONTRACT = True
+_STATE = {"evals": 0}
+
+
+class PostBroken(AssertionError):
+    pass
+
+
+def inverse_in_range(self, n, result):
+    """Post-condition on the real AntarcticIce.depth_with_index: one finite depth per index, inside the valid range."""
+    _STATE["evals"] += 1
+    r = np.asarray(result, float)
+    lo, hi = min(self.valid_range), max(self.valid_range)
+    def slack(z):
+        # conditioning of the logarithm at a range edge: dz = dn / (a (n0 - n(z))), with dn a few ulp of n0
+        d = float(self.n0 - self.index(z))
+        return 1e-9 + 64 * EPS * float(self.n0) / (float(self.a) * max(d, EPS * float(self.n0)))
+    return bool(r.shape == np.shape(n) and np.all(np.isfinite(r)) and np.all(r >= lo - slack(lo)) and np.all(r <= hi + slack(hi)))
+
+
+def setup():
+    import icontract
+    import pyrex.ice_model as im
+    if not getattr(im.AntarcticIce.depth_with_index, "_vt_wrapped", False):
+        w = icontract.ensure(inverse_in_range, error=PostBroken)(im.AntarcticIce.depth_with_index)
+        w._vt_wrapped = True
+        im.AntarcticIce.depth_with_index = w
+
+
 ANCHORS = ["pyrex.ice_model:AntarcticIce.index", "pyrex.ice_model:AntarcticIce.depth_with_index",
            "pyrex.ice_model:AntarcticIce.gradient", "pyrex.ice_model:AntarcticIce.attenuation_length",
            "pyrex.ice_model:ArasimIce.attenuation_length", "pyrex.ice_model:GreenlandIce.attenuation_length",
@@ -62,6 +91,7 @@ def gen_cases(tier, seed):
             spec = {"kind": "layered", "layers": layers, "above": 1.0, "below": [None, 1.9][int(rng.integers(0, 2))]}
             cls = "layered"
         cases.append({"cls": cls, "ice": spec})
+    cases.append({"cls": "repo-suite", "files": ["tests/test_ice_model.py", "tests/test_ray_tracing.py", "tests/test_kernel.py"]})      # the repository's own tests under the contract
     return cases
 
 
@@ -149,6 +179,27 @@ def _check_atten(v, ice, rng, lo, hi):
 
 
 def run_case(case):
+    if case["cls"] == "repo-suite":
+        from vt import suite
+        v_ = V()
+        rep = suite.run("c16", case["files"])
+        evals = sum(sum(x for x in d.values() if isinstance(x, int)) for d in rep.get("contract_evaluations", {}).values())
+        v_.events += evals
+        for f_ in rep.get("contract_failures", []):
+            v_.check(False, "contract holds while the repository's own tests run", test=f_["test"], message=f_["message"])
+        sample_ = {"workload": "repository test files under the contract", "files": rep.get("files"), "tests_collected": rep.get("collected"), "contract_evaluations": evals, "pytest": rep.get("tail")}
+        if rep.get("returncode") != 0 and not rep.get("contract_failures"):
+            return v_.result(decided=False, nontrivial=False, sample=sample_, skip="repository tests did not pass under the plugin")
+        return v_.result(decided=True, nontrivial=evals >= 50, sample=sample_)
+    try:
+        return _run_case(case)
+    except PostBroken as e:
+        v_ = V()
+        v_.check(False, "contract: depth_with_index returns one finite depth per index inside the valid range", contract=str(e)[:300], ice=case.get("ice"))
+        return v_.result(decided=True, nontrivial=True, sample={"ice": case.get("ice")})
+
+
+def _run_case(case):
     v = V()
     rng = case_rng(case)
     ice = gen.make_ice(case["ice"])
